@@ -128,7 +128,8 @@ def ser_sites(sites, reg, dynamic):
 class Built:
     """A program instantiated against the real library (default registry, unique names)."""
 
-    def __init__(self, program, prefix, failpoints=None):
+    def __init__(self, program, prefix, failpoints=None, dynamic_all=False):
+        """``dynamic_all``: every component tag - in the page AND in the class templates - goes through the dynamic component"""
         from django_components import Component, registry
 
         self.program, self.prefix, self.registry = program, prefix, registry
@@ -136,7 +137,7 @@ class Built:
         self.classes = {}
         fp = failpoints
         for cname, spec in program["classes"].items():
-            attrs = {"template": ser_nodes(spec["template"], self.reg)}
+            attrs = {"template": ser_nodes(spec["template"], self.reg, dynamic_all)}
             attrs["get_context_data"] = self._make_gcd(spec, cname, fp)
             for a in ("js", "css"):
                 if spec.get(a):
@@ -157,7 +158,7 @@ class Built:
             cls = type(pyname, bases, attrs)
             self.classes[cname] = cls
             registry.register(self.names[cname], cls)
-        self.page_src = ser_nodes(program["page"], self.reg)
+        self.page_src = ser_nodes(program["page"], self.reg, dynamic_all)
         self.page_src_dynamic = None
 
     def reg(self, cname):
